@@ -323,6 +323,106 @@ fn s_ndp_items(area: &[u8]) -> String {
     out
 }
 
+// ---- audit1-c17 ----
+// the typed NDP option slices constructed directly from arbitrary bytes
+fn s_nerr_oc(e: &icmpv6::NdpOptionReadError) -> String {
+    use icmpv6::NdpOptionReadError::*;
+    match e {
+        UnexpectedEndOfSlice {
+            option_id,
+            expected_size,
+            actual_size,
+        } => format!("ERR EOS {} {} {}", option_id.0, expected_size, actual_size),
+        ZeroLength { option_id } => format!("ERR Zero {}", option_id.0),
+        UnexpectedSize {
+            option_id,
+            expected_size,
+            actual_size,
+        } => format!("ERR Size {} {} {}", option_id.0, expected_size, actual_size),
+        UnexpectedHeader {
+            expected_option_id,
+            actual_option_id,
+            expected_length_units,
+            actual_length_units,
+        } => format!(
+            "ERR Hdr {} {} {} {}",
+            expected_option_id.0, actual_option_id.0, expected_length_units, actual_length_units
+        ),
+        #[allow(unreachable_patterns)]
+        _ => "ERR OTHER".to_string(),
+    }
+}
+
+fn s_opt_ctor(k: u8, bs: &[u8]) -> String {
+    use icmpv6::*;
+    match k {
+        1 => match SourceLinkLayerAddressOptionSlice::from_slice(bs) {
+            Ok(v) => format!("SrcLL {} ll={}", off(bs, v.as_bytes()), off(bs, v.link_layer_address())),
+            Err(e) => s_nerr_oc(&e),
+        },
+        2 => match TargetLinkLayerAddressOptionSlice::from_slice(bs) {
+            Ok(v) => format!("TgtLL {} ll={}", off(bs, v.as_bytes()), off(bs, v.link_layer_address())),
+            Err(e) => s_nerr_oc(&e),
+        },
+        3 => {
+            let r = PrefixInformationOptionSlice::from_slice(bs);
+            // the owned decoder runs the same checks and decodes the same fields
+            let o = PrefixInformation::from_slice(bs);
+            match (&r, &o) {
+                (Ok(v), Ok(pi)) => {
+                    assert_eq!(*pi, v.prefix_information());
+                    assert_eq!(pi.prefix_length, v.prefix_length());
+                    assert_eq!(pi.on_link, v.on_link());
+                    assert_eq!(pi.autonomous_address_configuration, v.autonomous_address_configuration());
+                    assert_eq!(pi.valid_lifetime, v.valid_lifetime());
+                    assert_eq!(pi.preferred_lifetime, v.preferred_lifetime());
+                    assert_eq!(pi.prefix, v.prefix());
+                }
+                (Err(a), Err(b)) => assert_eq!(a, b),
+                _ => panic!("PrefixInformationOptionSlice::from_slice and PrefixInformation::from_slice disagree"),
+            }
+            if let Ok(arr) = <[u8; 32]>::try_from(bs) {
+                match (PrefixInformation::from_bytes(arr), &o) {
+                    (Ok(a), Ok(b)) => assert_eq!(a, *b),
+                    (Err(a), Err(b)) => assert_eq!(a, *b),
+                    _ => panic!("PrefixInformation::from_bytes and from_slice disagree"),
+                }
+            }
+            match r {
+                Ok(v) => format!(
+                    "Prefix {} pl={} L={} A={} v={} p={} pre={}",
+                    off(bs, v.as_bytes()),
+                    v.prefix_length(),
+                    b01(v.on_link()),
+                    b01(v.autonomous_address_configuration()),
+                    v.valid_lifetime(),
+                    v.preferred_lifetime(),
+                    hex(&v.prefix())
+                ),
+                Err(e) => s_nerr_oc(&e),
+            }
+        }
+        4 => match RedirectedHeaderOptionSlice::from_slice(bs) {
+            Ok(v) => format!("Redir {} pkt={}", off(bs, v.as_bytes()), off(bs, v.redirected_packet())),
+            Err(e) => s_nerr_oc(&e),
+        },
+        5 => match MtuOptionSlice::from_slice(bs) {
+            Ok(v) => format!("Mtu {} mtu={}", off(bs, v.as_bytes()), v.mtu()),
+            Err(e) => s_nerr_oc(&e),
+        },
+        _ => match UnknownNdpOptionSlice::from_slice(bs) {
+            Ok(v) => format!(
+                "Unknown {} ty={} data={}",
+                off(bs, v.as_bytes()),
+                v.option_type().0,
+                off(bs, v.data())
+            ),
+            Err(e) => s_nerr_oc(&e),
+        },
+    }
+}
+// ---- end audit1-c17 ----
+
 fn s_ga(g: [u8; 4]) -> String {
     format!("{}.{}.{}.{}", g[0], g[1], g[2], g[3])
 }
@@ -500,6 +600,13 @@ fn run(line: &str) -> String {
             };
             format!("{} ; {}", view, eth)
         }
+        // ---- audit1-c17 ----
+        "oc" => {
+            let k: u8 = it.next().unwrap().parse().unwrap();
+            let bs = unhex(it.next().unwrap());
+            s_opt_ctor(k, &bs)
+        }
+        // ---- end audit1-c17 ----
         _ => panic!("bad c17 tag {}", tag),
     }
 }
